@@ -283,7 +283,10 @@ pub broadcast axiom fn ax_string_conv_obeys()
 pub broadcast axiom fn ax_string_from_string(s: String) ensures #[trigger] <String as FromSpec<String>>::from_spec(s) == s;
 pub broadcast axiom fn ax_string_from_ref(s: &String) ensures #[trigger] <String as FromSpec<&String>>::from_spec(s) == *s;
 pub broadcast axiom fn ax_string_from_str(s: &str) ensures (#[trigger] <String as FromSpec<&str>>::from_spec(s))@ == s@;
-pub broadcast group string_conv { ax_string_conv_obeys, ax_string_from_string, ax_string_from_ref, ax_string_from_str, ax_addr_to_string, ax_addr_ref_to_string }
+// std `impl From<String> for Vec<u8>`: the utf-8 bytes
+pub broadcast axiom fn ax_bytes_from_string_obeys() ensures #[trigger] <Vec<u8> as FromSpec<String>>::obeys_from_spec();
+pub broadcast axiom fn ax_bytes_from_string(s: String) ensures (#[trigger] <Vec<u8> as FromSpec<String>>::from_spec(s))@ == utf8(s@);
+pub broadcast group string_conv { ax_bytes_from_string_obeys, ax_bytes_from_string, ax_string_conv_obeys, ax_string_from_string, ax_string_from_ref, ax_string_from_str, ax_addr_to_string, ax_addr_ref_to_string }
 
 pub broadcast axiom fn ax_string_to_string(t: &String, s: String)
     ensures #[trigger] vstd::string::to_string_from_display_ensures::<String>(t, s) ==> s@ == t@;
